@@ -570,6 +570,49 @@ func runC16(cs *c16Case, scratch string, idx int, sr *run.ShardResult) (class, d
 		if c, d := afterCloseChecks(coll, nil); c != "" {
 			return c, d
 		}
+	case "readonly-after-close":
+		// A ReadOnly collection (no merger, no persister) must be just as
+		// final after Close: a snapshot that was cached before Close must not
+		// be served afterwards.
+		co := moss.DefaultCollectionOptions
+		co.ReadOnly = true
+		coll, err := moss.NewCollection(co)
+		if err != nil {
+			return "inconclusive", err.Error()
+		}
+		if err := coll.Start(); err != nil {
+			return "inconclusive", err.Error()
+		}
+		var probe moss.Batch
+		if cs.N%2 == 0 {
+			if err := execOne(coll, "k"); err != nil {
+				return "inconclusive", err.Error()
+			}
+			probe, _ = smallBatch(coll, "after-close-probe")
+		}
+		sn, err := coll.Snapshot()
+		if err != nil {
+			return "inconclusive", err.Error()
+		}
+		if cs.N%3 != 0 {
+			sn.Close()
+			sn = nil
+		}
+		set := &callSet{}
+		set.goCall("Close", func() error { return coll.Close() })
+		if h, inc := set.waitAll(wd); h != "" {
+			return "hang/close-readonly", h
+		} else if inc != "" {
+			return "inconclusive", inc
+		}
+		c, d := afterCloseChecks(coll, probe)
+		if sn != nil {
+			sn.Close()
+		}
+		if c != "" {
+			return c, d + " (ReadOnly collection)"
+		}
+		unit("readonly-closed")
 	case "writers-behind-busy-merger":
 		// The merger is in the middle of a cycle (held right after its
 		// ingest) while MaxPreMergerBatches batches are accepted and one more
@@ -1202,7 +1245,7 @@ func collClosed(c moss.Collection) bool {
 var c16Scenarios = []string{"backpressure-close", "backpressure-release", "close-during-update", "close-merger-waitoutgoing",
 	"notify-racing-close", "lower-stalled-resumed", "random-close", "random-close", "notify-flood", "notify-flood", "close-writer-parked-installed",
 	"round-completes-as-merger-starts-waiting", "close-while-lower-keeps-failing", "sync-notify-queued-behind-async",
-	"merge-refused-with-blocked-writers", "writers-behind-busy-merger"}
+	"merge-refused-with-blocked-writers", "writers-behind-busy-merger", "readonly-after-close"}
 
 func genC16(r *eng.Rng, idx int) *c16Case {
 	sc := c16Scenarios[idx%len(c16Scenarios)]
